@@ -376,9 +376,19 @@ class Env:
     def p_Pin__into_inner(s, M, st, th, ci, a): return s.ret(st, a[0].f[0])
     def d_Pin(s, M, st, th, v): return None
 
+    def p___panicking(s, M, st, th, ci, a): return s.ret(st, bool(th.panicking))       # std::thread::panicking
+    p_thread__panicking = p___panicking
     def p_mem__forget(s, M, st, th, ci, a): return s.ret(st, UNIT)
     def p_mem__drop(s, M, st, th, ci, a): return s.drop_then_ret(M, st, th, [a[0]], UNIT)
-    def p_mem__take(s, M, st, th, ci, a): return None
+    def p_mem__take(s, M, st, th, ci, a):
+        old = s.tgt(M, st, a[0])
+        if isinstance(old, Agg) and old.ty in ('Vec', 'VecDeque'): d = Agg(old.ty)
+        elif isinstance(old, Agg) and old.ty == 'Option': d = NONE
+        elif isinstance(old, I): d = I(0, old.w)
+        elif isinstance(old, bool): d = False
+        elif isinstance(old, z3.BitVecRef): d = I(0, old.size())
+        else: return None
+        M.write(st, a[0], d); return s.ret(st, old)
     def p_mem__replace(s, M, st, th, ci, a):
         old = s.tgt(M, st, a[0]); M.write(st, a[0], a[1]); return s.ret(st, old)
     def p_mem__swap(s, M, st, th, ci, a):
@@ -457,6 +467,15 @@ class Env:
         M.write(st, r, inner.with_field(1, I(inner.f[1].v + 1)))
         return s.ret(st, some(Agg('Arc', [r])))
 
+    def p_Weak__strong_count(s, M, st, th, ci, a):
+        v = s.tgt(M, st, a[0]); r = v.f[0]
+        return s.ret(st, I(0) if r is UNIT else M.deref(st, r).f[1])
+    def p_Weak__weak_count(s, M, st, th, ci, a):
+        v = s.tgt(M, st, a[0]); r = v.f[0]
+        if r is UNIT: return s.ret(st, I(0))
+        inner = M.deref(st, r); return s.ret(st, inner.f[2] if inner.f[1].v > 0 else I(0))
+    def p_Arc__weak_count(s, M, st, th, ci, a):
+        v = s.tgt(M, st, a[0]); return s.ret(st, M.deref(st, v.f[0]).f[2])
     def p_Weak__new(s, M, st, th, ci, a): return s.ret(st, Agg('Weak', [UNIT]))
     def p_Weak__ptr_eq(s, M, st, th, ci, a):
         x = s.tgt(M, st, a[0]); y = s.tgt(M, st, a[1]); return s.ret(st, x.f[0] == y.f[0])
@@ -622,6 +641,60 @@ class Env:
         if not it: return s.ret(st, NONE)
         M.write(st, a[0], Agg(v.ty, it[1:])); return s.ret(st, some(it[0]))
 
+    def p_Vec__append(s, M, st, th, ci, a):
+        v = s._seq(M, st, a[0]); o = s._seq(M, st, a[1])
+        M.write(st, a[0], Agg(v.ty, v.items() + o.items())); M.write(st, a[1], Agg(o.ty)); return s.ret(st, UNIT)
+    p_VecDeque__append = p_Vec__append
+
+    def p_Vec__insert(s, M, st, th, ci, a):
+        v = s._seq(M, st, a[0]); it = v.items(); i = a[1]
+        if not isinstance(i, I): raise Unmodelled('symbolic index in insert')
+        if i.v > len(it): return [('panic', st, 'insert index out of bounds', 'deadpool')]
+        it.insert(i.v, a[2]); M.write(st, a[0], Agg(v.ty, it)); return s.ret(st, UNIT)
+    p_VecDeque__insert = p_Vec__insert
+
+    def p_Vec__truncate(s, M, st, th, ci, a):
+        v = s._seq(M, st, a[0]); it = v.items(); n = a[1]
+        if not isinstance(n, I): raise Unmodelled('symbolic length in truncate')
+        if n.v >= len(it): return s.ret(st, UNIT)
+        M.write(st, a[0], Agg(v.ty, it[:n.v])); return s.drop_then_ret(M, st, th, it[n.v:], UNIT)
+    p_VecDeque__truncate = p_Vec__truncate
+
+    def p_Vec__split_off(s, M, st, th, ci, a):
+        v = s._seq(M, st, a[0]); it = v.items(); n = a[1]
+        if not isinstance(n, I): raise Unmodelled('symbolic index in split_off')
+        if n.v > len(it): return [('panic', st, 'split_off index out of bounds', 'deadpool')]
+        M.write(st, a[0], Agg(v.ty, it[:n.v])); return s.ret(st, Agg(v.ty, it[n.v:]))
+    p_VecDeque__split_off = p_Vec__split_off
+
+    def p_Vec__swap(s, M, st, th, ci, a):
+        v = s._seq(M, st, a[0]); it = v.items(); i, j = a[1], a[2]
+        if not (isinstance(i, I) and isinstance(j, I)): raise Unmodelled('symbolic index in swap')
+        if i.v >= len(it) or j.v >= len(it): return [('panic', st, 'swap index out of bounds', 'deadpool')]
+        it[i.v], it[j.v] = it[j.v], it[i.v]; M.write(st, a[0], Agg(v.ty, it)); return s.ret(st, UNIT)
+    p_VecDeque__swap = p_Vec__swap
+
+    def p_VecDeque__rotate_left(s, M, st, th, ci, a):
+        v = s._seq(M, st, a[0]); it = v.items(); n = a[1]
+        if not isinstance(n, I): raise Unmodelled('symbolic amount in rotate')
+        if n.v > len(it): return [('panic', st, 'rotate amount out of bounds', 'deadpool')]
+        M.write(st, a[0], Agg(v.ty, it[n.v:] + it[:n.v])); return s.ret(st, UNIT)
+    def p_VecDeque__rotate_right(s, M, st, th, ci, a):
+        v = s._seq(M, st, a[0]); it = v.items(); n = a[1]
+        if not isinstance(n, I): raise Unmodelled('symbolic amount in rotate')
+        if n.v > len(it): return [('panic', st, 'rotate amount out of bounds', 'deadpool')]
+        k = len(it) - n.v; M.write(st, a[0], Agg(v.ty, it[k:] + it[:k])); return s.ret(st, UNIT)
+
+    def t_Extend__extend(s, M, st, th, ci, a):
+        v = s.tgt(M, st, a[0]); src = a[1]
+        if not (isinstance(v, Agg) and v.ty in ('Vec', 'VecDeque')): return None
+        if isinstance(src, Agg) and src.ty in ('Vec', 'VecDeque'): items = src.items()
+        elif isinstance(src, Agg) and src.ty in ('Drain', 'IntoIter'): items = src.f[0].items()
+        else: return None
+        M.write(st, a[0], Agg(v.ty, v.items() + items)); return s.ret(st, UNIT)
+    p_Vec__extend = t_Extend__extend
+    p_VecDeque__extend = t_Extend__extend
+
     def p_Vec__len(s, M, st, th, ci, a): return s.ret(st, I(len(s._seq(M, st, a[0]).f)))
     p_VecDeque__len = p_Vec__len
     def p_Vec__is_empty(s, M, st, th, ci, a): return s.ret(st, len(s._seq(M, st, a[0]).f) == 0)
@@ -674,6 +747,12 @@ class Env:
         v = s._seq(M, st, a[0]); return s.ret(st, some(a[0].field(0)) if v.f else NONE)
     def p_VecDeque__back(s, M, st, th, ci, a):
         v = s._seq(M, st, a[0]); return s.ret(st, some(a[0].field(len(v.f) - 1)) if v.f else NONE)
+    p_VecDeque__front_mut = p_VecDeque__front
+    p_VecDeque__back_mut = p_VecDeque__back
+    p_Vec__first = p_VecDeque__front
+    p_Vec__first_mut = p_VecDeque__front
+    p_Vec__last = p_VecDeque__back
+    p_Vec__last_mut = p_VecDeque__back
     def p_VecDeque__get(s, M, st, th, ci, a):
         v = s._seq(M, st, a[0]); i = a[1]
         if not isinstance(i, I): raise Unmodelled('symbolic index')
